@@ -30,9 +30,10 @@ type Branch struct {
 
 type Case struct {
 	Branches []Branch `json:"branches"`
-	History  string   `json:"history"`  // commit | commit-fault | commit-twice | discard | discard-fault | discard-after-commit | commit-after-discard
-	FaultAt  int      `json:"fault_at"` // 1-based index of the failing store write (commit-fault / discard-fault)
-	Dead     bool     `json:"dead"`     // true: the n-th and every later write fail (process death); false: only the n-th
+	History  string   `json:"history"`             // commit | commit-fault | commit-twice | discard | discard-fault | discard-after-commit | commit-after-discard
+	FaultAt  int      `json:"fault_at"`            // 1-based index of the failing store write (commit-fault / discard-fault)
+	Dead     bool     `json:"dead"`                // true: the n-th and every later write fail (process death); false: only the n-th
+	FaultAt2 int      `json:"fault_at2,omitempty"` // commit-fault: the re-run's n-th storage access fails (once); then a clean run
 }
 
 var sub = evid.Register("transaction", run)
@@ -54,6 +55,9 @@ func TestPropTransaction(t *testing.T) {
 		}
 		c.FaultAt = rapid.IntRange(1, nw+1).Draw(t, "faultAt")
 		c.Dead = rapid.Bool().Draw(t, "dead")
+		if c.History == "commit-fault" && rapid.Bool().Draw(t, "second") {
+			c.FaultAt2 = rapid.IntRange(1, nw+1).Draw(t, "faultAt2")
+		}
 		sub.Check(t, c)
 	})
 }
@@ -405,6 +409,23 @@ func run(c Case) (o evid.Outcome, err error) {
 		for _, b := range c.Branches {
 			if !bytes.Equal(mid.heads[b.Name], before.heads[b.Name]) {
 				moved++
+			}
+		}
+		if c.FaultAt2 > 0 {
+			// the re-run is hit by a (single) failure of its own, e.g. while it reads back which
+			// branches the interrupted attempt had already moved; it must fail, or finish correctly
+			w.arm(c.FaultAt2, false)
+			_, err2 := transaction.Commit(w.db, w.rs, w.id)
+			hit2 := w.hit
+			w.arm(0, false)
+			if hit2 {
+				o.Class("re-run-hit-by-a-second-fault")
+			}
+			if err2 == nil {
+				if err := w.committed(c); err != nil {
+					return o, fmt.Errorf("interrupted at access %d, then re-run with access %d failing: Commit reported success, but: %v", c.FaultAt, c.FaultAt2, err)
+				}
+				return o, nil
 			}
 		}
 		// process restarted / fault gone: running the commit again must complete it
